@@ -13,6 +13,11 @@ pub(crate) use timezone::TimeZone;
 mod parser;
 mod rule;
 
+#[cfg(chronotope_chrono_verif)]
+#[doc(hidden)]
+#[allow(unreachable_pub)]
+pub mod verif;
+
 /// Unified error type for everything in the crate
 #[derive(Debug)]
 pub(crate) enum Error {
